@@ -38,7 +38,7 @@ impl ConstChoice {
     #[inline]
     pub(crate) const fn from_word_mask(value: Word) -> Self {
         debug_assert!(value == Self::FALSE.0 || value == Self::TRUE.0);
-        Self(value)
+        Self(core::hint::black_box(value))
     }
 
     /// Returns the truthy value if `value == 1`, and the falsy value if `value == 0`.
@@ -46,7 +46,7 @@ impl ConstChoice {
     #[inline]
     pub(crate) const fn from_word_lsb(value: Word) -> Self {
         debug_assert!(value == 0 || value == 1);
-        Self(value.wrapping_neg())
+        Self(core::hint::black_box(value.wrapping_neg()))
     }
 
     /// Returns the truthy value if the most significant bit of `value` is `1`,
@@ -61,21 +61,21 @@ impl ConstChoice {
     #[inline]
     pub(crate) const fn from_wide_word_lsb(value: WideWord) -> Self {
         debug_assert!(value == 0 || value == 1);
-        Self(value.wrapping_neg() as Word)
+        Self(core::hint::black_box(value.wrapping_neg() as Word))
     }
 
     #[inline]
     pub(crate) const fn from_u32_lsb(value: u32) -> Self {
         debug_assert!(value == 0 || value == 1);
         #[allow(trivial_numeric_casts)]
-        Self((value as Word).wrapping_neg())
+        Self(core::hint::black_box((value as Word).wrapping_neg()))
     }
 
     #[inline]
     pub(crate) const fn from_u64_lsb(value: u64) -> Self {
         debug_assert!(value == 0 || value == 1);
         #[allow(trivial_numeric_casts)]
-        Self((value as Word).wrapping_neg())
+        Self(core::hint::black_box((value as Word).wrapping_neg()))
     }
 
     /// Returns the truthy value if `value != 0`, and the falsy value otherwise.
